@@ -157,7 +157,7 @@ Proof. intros. apply sim_c_false. apply addsubs_shift_simc; assumption. Qed.
    the lifted IL leaves c = 0 *)
 Definition wit_instr : instr := IAddSubShift true true true SLSL 2 0 1 0.
 Definition wit_state : a64state :=
-  mkA (fun n => if n =? 1 then 1 else 0) 0 false false false false (fun _ => 0) 4096 false.
+  mkA (fun n => if n =? 1 then 1 else 0) (fun _ => 0) 0 false false false false (fun _ => 0) 4096 false.
 Definition wit_ops := Eval vm_compute in (match lift 4096 wit_instr with Ok (o, _) => o | _ => [] end).
 Definition wit_succs := Eval vm_compute in (match lift 4096 wit_instr with Ok (_, s) => s | _ => [] end).
 Definition wit_result : a64state := match a64step wit_instr wit_state with Done s => s | Undef => wit_state end.
